@@ -410,3 +410,10 @@ package database
 //@   requires db.embeddingIndex != nil ==> embedding.wfEmb(db.embeddingIndex)
 //@   modifies nothing
 //@   ensures[C19.db-embed-fresh] fresh(result)
+
+// fuzzyFind: the matcher's (assumed) contract carried through the NUL sanitisation; that the
+// sanitised targets are NUL-free, and the matcher safe on them, is validated bounded (axcheck).
+//@ func fuzzyFind
+//@   modifies targets[*]
+//@   ensures[C07.fuzzy-find] fresh(result) && (forall k int :: 0 <= k && k < len(result) ==> 0 <= result[k].Index && result[k].Index < len(targets))
+//@   ensures[C07.fuzzy-find-order] forall a, b int :: 0 <= a && a < b && b < len(result) ==> result[a].Score >= result[b].Score && result[a].Index != result[b].Index
